@@ -1,9 +1,11 @@
 import PyxModel.Sexp
 import PyxModel.Extract.Wire
+import PyxModel.Extract.ToSql
 
 /-! driver commands of property C14
 
     (c14 <diagram> <name|none> <T|F>)                 -> (ok <schema>) | (error OoaOfOoaException)
+    (c14-sql <diagram> <name|none> <T|F>)             -> (ok "<text written by gen_sql_schema.main>") | (error …)
     (c14-edit <diagram> <name|none> <T|F> (<edit>…))  -> (ok <extract d> <extract (applyEdits es d)>
                                                              <schemaEdits (resolveAll d es) (extract d)>)
                                                         | (error MetaModelException)          mkComponent d = none
@@ -34,6 +36,20 @@ def handle : List Sexp → Option Sexp
           | some s0, some s1 => list [sym "ok", eSchema s0, eSchema s1, eSchema (schemaEdits (resolveAll d comp v es) s0)]
         | none => list [sym "error", sym "OoaOfOoaException"]
       | _, _, _, _ => bad)
+  | [sym "c14-sql", d, n, v] =>
+    -- the text `gen_sql_schema.main` writes: `persist_database` of the built component (ASCII names)
+    some (match dDiagram d, dName n, dBool v with
+      | some d, some n, some v =>
+        match selectComp d.containers n with
+        | some comp =>
+          match mkComponent d comp v with
+          | some s =>
+            match Pyx.Sql.printItems Pyx.Sql.UC.ascii (s.toMM.persistDatabase Pyx.Sql.UC.ascii) with
+            | some text => list [sym "ok", str (String.ofList text)]
+            | none => list [sym "error", sym "unprintable"]
+          | none => list [sym "error", sym "MetaModelException"]
+        | none => list [sym "error", sym "OoaOfOoaException"]
+      | _, _, _ => bad)
   | _ => none
 
 end Pyx.Driver.C14
